@@ -10,23 +10,23 @@ namespace Trion.Asm
 open Trion
 
 inductive Cls where
-  | lbl | dir | ins
+  | lbl | dir (name : Bytes) | ins
 deriving DecidableEq, Repr
 
 def Cls.of : ElemVal → Cls
   | .label _ => .lbl
-  | .directive .. => .dir
+  | .directive name _ => .dir name
   | .instruction .. => .ins
 
 /-- the diagnostic kinds a statement of class `C` (or its queued retry) pushes -/
 def pushesC : Cls → Kind → Bool
   | .lbl, .inactive => true
   | .lbl, .label _ => true
-  | .dir, .dirNotFound _ => true
-  | .dir, .dirTooMany .. => true
-  | .dir, .dirNotEnough .. => true
-  | .dir, .dirArgType .. => true
-  | .dir, .dirApply .. => true
+  | .dir n, .dirNotFound m => decide (m = n)
+  | .dir n, .dirTooMany s .. => decide (bytesOf s = n)
+  | .dir n, .dirNotEnough s .. => decide (bytesOf s = n)
+  | .dir n, .dirArgType s .. => decide (bytesOf s = n)
+  | .dir n, .dirApply s _ => decide (bytesOf s = n)
   | .ins, .inactive => true
   | .ins, .instrNotFound _ => true
   | .ins, .instrTooMany .. => true
@@ -37,8 +37,8 @@ def pushesC : Cls → Kind → Bool
 
 /-- the tasks a statement of class `C` queues -/
 def taskC : Cls → Task → Bool
-  | .dir, .data .. => true
-  | .dir, .globalCopy .. => true
+  | .dir n, .data d _ => decide (bytesOf d.du.name = n)
+  | .dir n, .globalCopy .. => decide (bytesOf "global" = n)
   | .ins, .instr .. => true
   | _, _ => false
 
@@ -73,13 +73,14 @@ theorem effK_pushIn (C : Cls) (f : Bytes) (l c : Nat) (st : St) (k : Kind) (hk :
 theorem pushes_frontKind (d : Front.Diag) : pushesC .ins (frontKind d) = true := by
   cases d <;> first | rfl | (rename_i e; cases e <;> rfl)
 
-theorem pushes_arity {dir : String} {need n : Nat} {k : Kind} (h : arity dir need n = some k) : pushesC .dir k = true := by
+theorem pushes_arity {dir : String} {need n : Nat} {k : Kind} (h : arity dir need n = some k) :
+    pushesC (.dir (bytesOf dir)) k = true := by
   unfold arity at h
   repeat' split at h
-  all_goals (first | (cases h; done) | (cases h; rfl))
+  all_goals (first | (cases h; done) | (cases h; simp [pushesC]))
 
 macro "pushes_tac" : tactic =>
-  `(tactic| first | rfl | exact pushes_frontKind _ | exact pushes_arity ‹_›)
+  `(tactic| first | rfl | exact pushes_frontKind _ | exact pushes_arity ‹_› | (simp [pushesC, DataExpr.kindApply, GDir.name]; done))
 
 theorem effK_same {C : Cls} {f : Bytes} {l c : Nat} {st st' : St} (he : st'.errors = st.errors) (hg : st'.globalTasks = st.globalTasks)
     (hl : st'.localTasks = st.localTasks) : EffK C f l c st st' :=
@@ -110,24 +111,27 @@ theorem addTask_effK {C : Cls} {f : Bytes} {l c : Nat} {st st' : St} {t : Task} 
     · exact .inr ⟨ht, hc⟩
 
 theorem writeData_effK {f : Bytes} {l c : Nat} {d : DataExpr} {st : St} {bytes : Bytes} (hd : d.at f l c) :
-    ∀ d' st' r, d.writeData st bytes = .ok (d', st', r) → EffK .dir f l c st st' ∧ d'.at f l c := by
+    ∀ d' st' r, d.writeData st bytes = .ok (d', st', r) →
+      EffK (.dir (bytesOf d.du.name)) f l c st st' ∧ d'.at f l c ∧ d'.du = d.du := by
   obtain ⟨rfl, rfl, rfl⟩ := hd
   unfold DataExpr.writeData
   splits
   all_goals (intro d' st' r h)
-  all_goals (first | (cases h; done) | (cases h; exact ⟨effK_same rfl rfl rfl, rfl, rfl, rfl⟩) | (cases h; exact ⟨(effK_same (st' := { st with seg := _ }) rfl rfl rfl).trans (effK_pushIn _ _ _ _ _ _ (by pushes_tac)), rfl, rfl, rfl⟩))
+  all_goals (first | (cases h; done) | (cases h; exact ⟨effK_same rfl rfl rfl, ⟨rfl, rfl, rfl⟩, rfl⟩) | (cases h; exact ⟨(effK_same (st' := { st with seg := _ }) rfl rfl rfl).trans (effK_pushIn _ _ _ _ _ _ (by pushes_tac)), ⟨rfl, rfl, rfl⟩, rfl⟩))
 
 theorem writer_effK {f : Bytes} {l c : Nat} {d : DataExpr} {st : St} (hd : d.at f l c) :
-    ∀ d' st' r, d.writer st = .ok (d', st', r) → EffK .dir f l c st st' ∧ d'.at f l c := by
+    ∀ d' st' r, d.writer st = .ok (d', st', r) →
+      EffK (.dir (bytesOf d.du.name)) f l c st st' ∧ d'.at f l c ∧ d'.du = d.du := by
   unfold DataExpr.writer
   splits
   all_goals (first | exact writeData_effK hd | skip)
   all_goals (obtain ⟨rfl, rfl, rfl⟩ := hd)
   all_goals (intro d' st' r h)
-  all_goals (cases h; exact ⟨effK_pushIn _ _ _ _ _ _ (by pushes_tac), rfl, rfl, rfl⟩)
+  all_goals (cases h; exact ⟨effK_pushIn _ _ _ _ _ _ (by pushes_tac), ⟨rfl, rfl, rfl⟩, rfl⟩)
 
 theorem apply_effK {f : Bytes} {l c : Nat} {d : DataExpr} {env : Env} {st : St} {loc : Bool} (hd : d.at f l c) :
-    ∀ d' st' op, d.apply env st loc = .ok (d', st', op) → EffK .dir f l c st st' ∧ d'.at f l c := by
+    ∀ d' st' op, d.apply env st loc = .ok (d', st', op) →
+      EffK (.dir (bytesOf d.du.name)) f l c st st' ∧ d'.at f l c ∧ d'.du = d.du := by
   unfold DataExpr.apply
   splits
   all_goals (intro d' st' op h)
@@ -135,28 +139,30 @@ theorem apply_effK {f : Bytes} {l c : Nat} {d : DataExpr} {env : Env} {st : St} 
   all_goals (try (rename_i hw; have w := (fun hd' => writer_effK hd' _ _ _ hw) hd))
   all_goals (first | (cases h; exact w) | skip)
   all_goals (obtain ⟨rfl, rfl, rfl⟩ := hd)
-  all_goals (cases h; first | exact ⟨EffK.refl _ _ _ _ _, rfl, rfl, rfl⟩ | exact ⟨effK_pushIn _ _ _ _ _ _ (by pushes_tac), rfl, rfl, rfl⟩)
+  all_goals (cases h; first | exact ⟨EffK.refl _ _ _ _ _, ⟨rfl, rfl, rfl⟩, rfl⟩ | exact ⟨effK_pushIn _ _ _ _ _ _ (by pushes_tac), ⟨rfl, rfl, rfl⟩, rfl⟩)
 
 theorem duDirective_effK {du : DU} {env : Env} {st : St} {line col : Nat} {args : List Arg} :
-    ∀ st' r, duDirective du env st line col args = .ok (st', r) → EffK .dir env.curName line col st st' := by
+    ∀ st' r, duDirective du env st line col args = .ok (st', r) →
+      EffK (.dir (bytesOf du.name)) env.curName line col st st' := by
   unfold duDirective
   splits
   all_goals (intro st' r h)
   all_goals (first | (cases h; done) | (cases h; exact effK_pushIn _ _ _ _ _ _ (by pushes_tac)) | skip)
   all_goals (try (have w1 := apply_effK (d := ⟨du, env.curName, line, col, _, _, false⟩) ⟨rfl, rfl, rfl⟩ _ _ _ ‹DataExpr.apply _ _ _ _ = _›))
-  all_goals (try (have w2 := writeData_effK w1.2 _ _ _ ‹DataExpr.writeData _ _ _ = _›))
-  all_goals (try (have w3 := addTask_effK (C := .dir) (t := .data _ false) ‹DataExpr.schedule _ _ _ = _› w2.2 rfl))
+  all_goals (try (have w2 := writeData_effK w1.2.1 _ _ _ ‹DataExpr.writeData _ _ _ = _›; rw [w1.2.2] at w2))
+  all_goals (try (have w3 := addTask_effK (C := .dir (bytesOf du.name)) (t := .data _ false) ‹DataExpr.schedule _ _ _ = _› w2.2.1 (by simp [taskC, w2.2.2])))
   all_goals (cases h; first | exact w1.1 | exact w1.1.trans w2.1 | exact (w1.1.trans w2.1).trans w3)
 
 theorem runDataTask_effK {d : DataExpr} {g : Bool} {env : Env} {st : St} :
-    ∀ st' r, runDataTask d g env st = .ok (st', r) → EffK .dir d.file d.line d.col st st' := by
+    ∀ st' r, runDataTask d g env st = .ok (st', r) →
+      EffK (.dir (bytesOf d.du.name)) d.file d.line d.col st st' := by
   unfold runDataTask
   splits
   all_goals (intro st' r h)
   all_goals (first | (cases h; done) | skip)
   all_goals (try (have w1 := apply_effK (d := d) ⟨rfl, rfl, rfl⟩ _ _ _ ‹DataExpr.apply _ _ _ _ = _›))
-  all_goals (try (have w3 := addTask_effK (C := .dir) (t := .data _ true) ‹DataExpr.schedule _ _ _ = _› w1.2 rfl))
-  all_goals (cases h; first | exact w1.1 | exact w1.1.trans w3 | (obtain ⟨w11, e1, e2, e3⟩ := w1; rw [e1, e2, e3]; exact w11.trans (effK_pushIn _ _ _ _ _ _ (by pushes_tac))))
+  all_goals (try (have w3 := addTask_effK (C := .dir (bytesOf d.du.name)) (t := .data _ true) ‹DataExpr.schedule _ _ _ = _› w1.2.1 (by simp [taskC, w1.2.2])))
+  all_goals (cases h; first | exact w1.1 | exact w1.1.trans w3 | (obtain ⟨w11, ⟨e1, e2, e3⟩, e4⟩ := w1; rw [e1, e2, e3]; exact w11.trans (effK_pushIn _ _ _ _ _ _ (by simp [pushesC, DataExpr.kindApply, e4]))))
 
 theorem assembleI_effK {f : Bytes} {l c : Nat} {i : ArmInstr} {env : Env} {st : St} {loc : Bool} (hi : i.at f l c) :
     ∀ i' st' op, i.assemble env st loc = .ok (i', st', op) → EffK .ins f l c st st' ∧ i'.at f l c := by
@@ -197,16 +203,18 @@ theorem runInstrTask_effK {enc : Encoder} {i : ArmInstr} {g : Bool} {env : Env} 
   all_goals (cases h; first | exact w1.1 | exact w1.1.trans w2.1 | exact w1.1.trans w3 | (obtain ⟨w11, e1, e2, e3⟩ := w1; rw [e1, e2, e3]; exact w11.trans (effK_pushIn _ _ _ _ _ _ (by pushes_tac))))
 
 theorem runGlobalCopy_effK {name : Bytes} {line col : Nat} {env : Env} {st : St} :
-    ∀ st' r, runGlobalCopy name line col env st = .ok (st', r) → EffK .dir env.curName line col st st' := by
+    ∀ st' r, runGlobalCopy name line col env st = .ok (st', r) →
+      EffK (.dir (bytesOf "global")) env.curName line col st st' := by
   unfold runGlobalCopy
   splits
   all_goals (intro st' r h)
   all_goals (first | (cases h; done) | (cases h; exact effK_pushIn _ _ _ _ _ _ (by pushes_tac)) | skip)
-  all_goals (try (have w1 : EffK .dir env.curName line col st _ := effK_of_same (insertConstant_same ‹insertConstant _ _ _ _ = _›)))
+  all_goals (try (have w1 : EffK (.dir (bytesOf "global")) env.curName line col st _ := effK_of_same (insertConstant_same ‹insertConstant _ _ _ _ = _›)))
   all_goals (cases h; first | exact w1 | exact w1.trans (effK_pushIn _ _ _ _ _ _ (by pushes_tac)))
 
 theorem evalStrict_effK {dir : String} {env : Env} {st st' : St} {line col : Nat} {a : Arg} {r : Res}
-    (h : evalStrict dir env st line col a = .ok (.error (st', r))) : EffK .dir env.curName line col st st' := by
+    (h : evalStrict dir env st line col a = .ok (.error (st', r))) :
+    EffK (.dir (bytesOf dir)) env.curName line col st st' := by
   unfold evalStrict at h
   repeat' split at h
   all_goals (first | (cases h; done) | (cases h; exact effK_pushIn _ _ _ _ _ _ (by pushes_tac)))
@@ -225,28 +233,28 @@ macro "effK_close" : tactic =>
     | exact (effK_of_same (deferConstant_same ‹deferConstant _ _ _ = _›)).trans (effK_pushIn _ _ _ _ _ _ (by pushes_tac)))
 
 theorem addrDirective_effK {env : Env} {st : St} {line col : Nat} {args : List Arg} :
-    ∀ st' r, addrDirective env st line col args = .ok (st', r) → EffK .dir env.curName line col st st' := by
+    ∀ st' r, addrDirective env st line col args = .ok (st', r) → EffK (.dir (bytesOf "addr")) env.curName line col st st' := by
   unfold addrDirective
   splits
   all_goals (intro st' r h)
   all_goals (first | (cases h; done) | (cases h; effK_close))
 
 theorem alignDirective_effK {env : Env} {st : St} {line col : Nat} {args : List Arg} :
-    ∀ st' r, alignDirective env st line col args = .ok (st', r) → EffK .dir env.curName line col st st' := by
+    ∀ st' r, alignDirective env st line col args = .ok (st', r) → EffK (.dir (bytesOf "align")) env.curName line col st st' := by
   unfold alignDirective
   splits
   all_goals (intro st' r h)
   all_goals (first | (cases h; done) | (cases h; effK_close))
 
 theorem constDirective_effK {env : Env} {st : St} {line col : Nat} {args : List Arg} :
-    ∀ st' r, constDirective env st line col args = .ok (st', r) → EffK .dir env.curName line col st st' := by
+    ∀ st' r, constDirective env st line col args = .ok (st', r) → EffK (.dir (bytesOf "const")) env.curName line col st st' := by
   unfold constDirective
   splits
   all_goals (intro st' r h)
   all_goals (first | (cases h; done) | (cases h; effK_close))
 
 theorem appendData_effK {dir : String} {env : Env} {st : St} {line col : Nat} {d : Bytes} :
-    ∀ st' r, appendData dir env st line col d = .ok (st', r) → EffK .dir env.curName line col st st' := by
+    ∀ st' r, appendData dir env st line col d = .ok (st', r) → EffK (.dir (bytesOf dir)) env.curName line col st st' := by
   unfold appendData
   splits
   all_goals (intro st' r h)
@@ -254,7 +262,7 @@ theorem appendData_effK {dir : String} {env : Env} {st : St} {line col : Nat} {d
 
 theorem stringDirective_effK {fs : Bytes → Option Bytes} {dir : String} {env : Env} {st : St} {line col : Nat}
     {args : List Arg} :
-    ∀ st' r, stringDirective fs dir env st line col args = .ok (st', r) → EffK .dir env.curName line col st st' := by
+    ∀ st' r, stringDirective fs dir env st line col args = .ok (st', r) → EffK (.dir (bytesOf dir)) env.curName line col st st' := by
   unfold stringDirective
   splits
   all_goals (first | exact appendData_effK | skip)
@@ -262,16 +270,16 @@ theorem stringDirective_effK {fs : Bytes → Option Bytes} {dir : String} {env :
   all_goals (first | (cases h; done) | (cases h; effK_close))
 
 theorem globalDirective_effK {g : GDir} {env : Env} {st : St} {line col : Nat} {args : List Arg} :
-    ∀ st' r, globalDirective g env st line col args = .ok (st', r) → EffK .dir env.curName line col st st' := by
+    ∀ st' r, globalDirective g env st line col args = .ok (st', r) → EffK (.dir (bytesOf g.name)) env.curName line col st st' := by
   unfold globalDirective
   splits
   all_goals (intro st' r h)
   all_goals (first | (cases h; done) | (cases h; effK_close) | skip)
   -- `.global`: `defer_constant(Global)`, then fill / defer locally, then the closure
-  all_goals (have w2 : EffK .dir env.curName line col st _ := effK_of_same (deferConstant_same ‹deferConstant st _ Realm.global = _›))
-  all_goals (try (have w1 : EffK .dir env.curName line col _ _ := effK_of_same (insertConstant_same ‹insertConstant _ _ _ Realm.global = _›)))
-  all_goals (try (have w3 : EffK .dir env.curName line col _ _ := effK_of_same (deferConstant_same ‹deferConstant _ _ Realm.loc = _›)))
-  all_goals (try (have w4 := addTask_effK (C := .dir) (f := env.curName) (t := .globalCopy _ line col) ‹addTask _ _ _ = _› ⟨rfl, rfl⟩ rfl))
+  all_goals (have w2 : EffK (.dir (bytesOf GDir.global.name)) env.curName line col st _ := effK_of_same (deferConstant_same ‹deferConstant st _ Realm.global = _›))
+  all_goals (try (have w1 : EffK (.dir (bytesOf GDir.global.name)) env.curName line col _ _ := effK_of_same (insertConstant_same ‹insertConstant _ _ _ Realm.global = _›)))
+  all_goals (try (have w3 : EffK (.dir (bytesOf GDir.global.name)) env.curName line col _ _ := effK_of_same (deferConstant_same ‹deferConstant _ _ Realm.loc = _›)))
+  all_goals (try (have w4 := addTask_effK (C := .dir (bytesOf GDir.global.name)) (f := env.curName) (t := .globalCopy _ line col) ‹addTask _ _ _ = _› ⟨rfl, rfl⟩ rfl))
   all_goals (cases h; first | exact w2.trans w1 | exact (w2.trans w3).trans w4 | exact w2.trans w4)
 
 /-- what the recursive call contributes is not at the statement's position; `.include` itself adds at most the
@@ -279,8 +287,9 @@ final `AssemblyFailed` diagnostic -/
 theorem includeDirective_effK {fs : Bytes → Option Bytes} {inc : Inc} {env : Env} {st : St} {line col : Nat}
     {args : List Arg} :
     ∀ st' r, includeDirective fs inc env st line col args = .ok (st', r) →
-      EffK .dir env.curName line col st st' ∨
-      ∃ data path st1 r1, fs path = some data ∧ inc env st data path = .ok (st1, r1) ∧ EffK .dir env.curName line col st1 st' := by
+      EffK (.dir (bytesOf "include")) env.curName line col st st' ∨
+      ∃ data path st1 r1, fs path = some data ∧ inc env st data path = .ok (st1, r1) ∧
+        EffK (.dir (bytesOf "include")) env.curName line col st1 st' := by
   unfold includeDirective
   splits
   all_goals (intro st' r h)
@@ -291,43 +300,43 @@ theorem includeDirective_effK {fs : Bytes → Option Bytes} {inc : Inc} {env : E
 
 theorem directive_effK {fs : Bytes → Option Bytes} {inc : Inc} {env : Env} {st : St} {line col : Nat} {name : Bytes}
     {args : List Arg} (hni : name ≠ bytesOf "include") :
-    ∀ st' r, directive fs inc env st line col name args = .ok (st', r) → EffK .dir env.curName line col st st' := by
+    ∀ st' r, directive fs inc env st line col name args = .ok (st', r) → EffK (.dir name) env.curName line col st st' := by
   delta directive
   by_cases h0 : name = bytesOf "addr"
-  · rw [if_pos h0]; exact addrDirective_effK
+  · rw [if_pos h0, h0]; exact addrDirective_effK
   rw [if_neg h0]
   by_cases h1 : name = bytesOf "align"
-  · rw [if_pos h1]; exact alignDirective_effK
+  · rw [if_pos h1, h1]; exact alignDirective_effK
   rw [if_neg h1]
   by_cases h2 : name = bytesOf "const"
-  · rw [if_pos h2]; exact constDirective_effK
+  · rw [if_pos h2, h2]; exact constDirective_effK
   rw [if_neg h2]
   by_cases h3 : name = bytesOf "du8"
-  · rw [if_pos h3]; exact duDirective_effK
+  · rw [if_pos h3, h3]; exact duDirective_effK
   rw [if_neg h3]
   by_cases h4 : name = bytesOf "du16"
-  · rw [if_pos h4]; exact duDirective_effK
+  · rw [if_pos h4, h4]; exact duDirective_effK
   rw [if_neg h4]
   by_cases h5 : name = bytesOf "du32"
-  · rw [if_pos h5]; exact duDirective_effK
+  · rw [if_pos h5, h5]; exact duDirective_effK
   rw [if_neg h5]
   by_cases h6 : name = bytesOf "dhex"
-  · rw [if_pos h6]; exact stringDirective_effK
+  · rw [if_pos h6, h6]; exact stringDirective_effK
   rw [if_neg h6]
   by_cases h7 : name = bytesOf "dstr"
-  · rw [if_pos h7]; exact stringDirective_effK
+  · rw [if_pos h7, h7]; exact stringDirective_effK
   rw [if_neg h7]
   by_cases h8 : name = bytesOf "dfile"
-  · rw [if_pos h8]; exact stringDirective_effK
+  · rw [if_pos h8, h8]; exact stringDirective_effK
   rw [if_neg h8]
   by_cases h9 : name = bytesOf "global"
-  · rw [if_pos h9]; exact globalDirective_effK
+  · rw [if_pos h9, h9]; exact globalDirective_effK
   rw [if_neg h9]
   by_cases h10 : name = bytesOf "import"
-  · rw [if_pos h10]; exact globalDirective_effK
+  · rw [if_pos h10, h10]; exact globalDirective_effK
   rw [if_neg h10]
   by_cases h11 : name = bytesOf "export"
-  · rw [if_pos h11]; exact globalDirective_effK
+  · rw [if_pos h11, h11]; exact globalDirective_effK
   rw [if_neg h11, if_neg hni]
   intro st' r h; cases h; exact effK_pushIn _ _ _ _ _ _ (by pushes_tac)
 
@@ -353,9 +362,9 @@ theorem statement_effK {fs : Bytes → Option Bytes} {enc : Encoder} {inc : Inc}
 
 /-- the class of the statement that queued a task -/
 def Task.cls : Task → Cls
-  | .data .. => .dir
+  | .data d _ => .dir (bytesOf d.du.name)
   | .instr .. => .ins
-  | .globalCopy .. => .dir
+  | .globalCopy .. => .dir (bytesOf "global")
 
 theorem runTask_effK {enc : Encoder} {env : Env} {st : St} {t : Task} {f : Bytes} {l c : Nat} (ht : t.at f l c)
     (hf : ∀ n l' c', t = .globalCopy n l' c' → f = env.curName) :
